@@ -302,7 +302,7 @@ def availability_rule(ctx: Ctx, rule: str) -> None:
         f = prog.func('models.logit', name)
         rets = returned_expressions(f)
         m = {g: unparse(e) for g, e in rets}
-        ok = any('_bioLogLogitFullChoiceSet(util, choice=i)' in v for g, v in m.items() if g == 'av is None') and any(
+        ok = any('_bioLogLogitFullChoiceSet(util, choice=i)' in v or '_bioLogLogitFullChoiceSet(util, i)' in v for g, v in m.items() if g == 'av is None') and any(
             '_bioLogLogit(util, av, i)' in v for g, v in m.items() if g == 'not av is None'
         )
         ctx.add(rule, f'{name}:dispatch', ok, f, 'av=None selects the full-choice-set kernel, otherwise (util, av, choice) go to the availability kernel' if ok else f'dispatch of {name}: {m}', str(m))
